@@ -3,6 +3,7 @@ import Just.Model.Quote
 import Just.Generated.Tables
 import Just.Model.Lexer
 import Just.Model.Render
+import Just.Model.Body
 open Lean Just
 
 /-- first entry whose key occurs in `k` (the fake shell's matching rule) -/
@@ -197,6 +198,56 @@ def handleContext (j : Json) : Except String Json := do
   | some c => return Json.mkObj [("context", Json.mkObj [("line", toJson c.lineNumber), ("column", toJson c.columnNumber),
       ("echoed", String.ofList c.echoed), ("caretOffset", toJson c.caretOffset), ("caretCount", toJson c.caretCount)])]
 
+def optField (j : Json) (k : String) : Option Json :=
+  match j.getObjVal? k with
+  | .ok Json.null => none
+  | .ok v => some v
+  | .error _ => none
+
+def interpFromJson (j : Json) : Except String Body.Interp := do
+  return ⟨← j.getObjValAs? String "command", ← fromJson? (← j.getObjVal? "args")⟩
+
+def optInterp (j : Json) (k : String) : Except String (Option Body.Interp) :=
+  match optField j k with
+  | none => pure none
+  | some v => do return some (← interpFromJson v)
+
+/-- {"op":"body", "lines":[{"number":N,"frags":[{"t":S}|{"v":S}]}], "ignoreComments":B,
+    "script": null | {"own": null|{command,args}}, "cliShell": S?, "cliArgs": [S]?, "setShell": I?, "setScript": I?} -/
+def handleBody (j : Json) : Except String Json := do
+  let linesJ ← (← j.getObjVal? "lines").getArr?
+  let lines ← linesJ.toList.mapM (fun lj => do
+    let number ← lj.getObjValAs? Nat "number"
+    let fragsJ ← (← lj.getObjVal? "frags").getArr?
+    let frags ← fragsJ.toList.mapM (fun fj =>
+      match fj.getObjValAs? String "t" with
+      | .ok t => pure (Body.Frag.text t.toList)
+      | .error _ => do
+        let v ← fj.getObjValAs? String "v"
+        pure (Body.Frag.interp v.toList))
+    pure (⟨frags, number⟩ : Body.Line))
+  let ic ← j.getObjValAs? Bool "ignoreComments"
+  let scriptAttr : Option (Option Body.Interp) ← match optField j "script" with
+    | none => pure none
+    | some sj => do pure (some (← optInterp sj "own"))
+  let cliShell : Option String ← match optField j "cliShell" with
+    | none => pure none
+    | some v => do pure (some (← v.getStr?))
+  let cliArgs : Option (List String) ← match optField j "cliArgs" with
+    | none => pure none
+    | some v => do pure (some (← fromJson? v))
+  let setShell ← optInterp j "setShell"
+  let setScript ← optInterp j "setScript"
+  match Body.execute ⟨lines, scriptAttr⟩ ic cliShell cliArgs setShell setScript with
+  | .shellLines sh cmds =>
+    return Json.mkObj [("kind", "lines"), ("shell", toJson (sh.command :: sh.args)),
+      ("cmds", Json.arr (cmds.map (fun c => Json.mkObj [("text", String.ofList c.text), ("quiet", c.quiet),
+        ("infallible", c.infallible)])).toArray)]
+  | .script interp text =>
+    return Json.mkObj [("kind", "script"),
+      ("interp", match interp with | some i => toJson (i.command :: i.args) | none => Json.null),
+      ("text", String.ofList text)]
+
 def handle (line : String) : Json :=
   match Json.parse line with
   | .error e => Json.mkObj [("fatal", s!"parse: {e}")]
@@ -219,6 +270,7 @@ def handle (line : String) : Json :=
       | "evaluate" => handleEvaluate j
       | "shsplit" => handleShSplit j
       | "lex" => handleLex j
+      | "body" => handleBody j
       | "context" => handleContext j
       | _ => throw s!"unknown op {op}"
     match r with
